@@ -69,6 +69,12 @@ vp_second_listing_ok(int kind, uint64_t num) {
   return 1;
 }
 
+#if VP_STRICT_LOGOPEN
+#define VP_LOGRM_MSG "KF:F3-log-open-failure-ignored a log removed after recovery was read completely (or was obsolete before)"
+#else
+#define VP_LOGRM_MSG "C05.c a log removed after recovery was replayed completely (or was obsolete before)"
+#endif
+
 static int
 vp_remove_permitted(const char *name) {
   int kind = vp_name_kind(name);
@@ -77,9 +83,10 @@ vp_remove_permitted(const char *name) {
     return 0;                       /* C05.c nothing is removed before the recovery edit is committed */
   if (g_t_listing2 == 0)
     return 0;
-  if (kind == VP_KIND(LDB_FILE_LOG))
-    return num < vs.log_number && num != vs.prev_log_number && num != the_db.logfile_number
-        && (vp_was_replayed_ok(num) || !vp_log_needed(num));
+  if (kind == VP_KIND(LDB_FILE_LOG)) {
+    VP_ASSERT(vp_was_replayed_ok(num) || !vp_log_needed(num), VP_LOGRM_MSG);
+    return num < vs.log_number && num != vs.prev_log_number && num != the_db.logfile_number;
+  }
   if (kind == VP_KIND(LDB_FILE_TABLE))
     return !vp_is_version_table(num) && !vp_is_new_table(num);
   if (kind == VP_KIND(LDB_FILE_DESC))
